@@ -113,7 +113,10 @@ type Rule struct {
 // sit in the base layer; facts written in the text and derived facts reach the output layer through the engine.
 // The meaning of the case does not depend on it (reads go to the union of both layers).
 type Case struct {
-	Layered  bool    `json:"layered,omitempty"`
+	Layered bool `json:"layered,omitempty"`
+	// Coalesce: TemporalStore.Coalesce is called for every temporal predicate of the base layer before the
+	// evaluation (the base facts are coalesced as generated, so this changes nothing that can be asked).
+	Coalesce bool    `json:"coalesce,omitempty"`
 	Now      int64   `json:"now"` // evaluation time, tick
 	Temporal []TFact `json:"temporal"`
 	Plain    []PFact `json:"plain"`
@@ -375,6 +378,17 @@ func runEngine(c Case, text string) (out outcome) {
 			out.malformed = append(out.malformed, fmt.Sprintf("base fact refused by the store: %v", err))
 		}
 	}
+	if c.Coalesce {
+		done := map[string]bool{}
+		for _, f := range c.Temporal {
+			if !f.InText && !done[f.Pred] {
+				done[f.Pred] = true
+				if err := baseLayer.Coalesce(numAtom(f.Pred, f.Args).Predicate); err != nil {
+					out.malformed = append(out.malformed, fmt.Sprintf("Coalesce(%s) failed: %v", f.Pred, err))
+				}
+			}
+		}
+	}
 	store := factstore.NewMultiIndexedArrayInMemoryStore()
 	for _, f := range c.Plain {
 		store.Add(numAtom(f.Pred, f.Args))
@@ -490,6 +504,9 @@ func check(run *stats.Run, f stats.Failer, c Case) verdict {
 				sb.WriteString("(output layer)")
 			}
 		}
+		if c.Coalesce {
+			sb.WriteString("\nCoalesce was called for every predicate of the base layer before the evaluation")
+		}
 		if c.Layered {
 			sb.WriteString("\ntemporal store: TeeingTemporalStore; the facts marked (output layer) were added through it, the unmarked ones sit in its base layer")
 		}
@@ -527,6 +544,9 @@ func check(run *stats.Run, f stats.Failer, c Case) verdict {
 // layerLabels describes how the base facts are spread over the two layers of a layered store.
 func (c Case) layerLabels() map[string]bool {
 	labels := map[string]bool{}
+	if c.Coalesce {
+		labels["coalesce-called-before-evaluation"] = true
+	}
 	if !c.Layered {
 		return labels
 	}
